@@ -541,7 +541,12 @@ def check_C01(ctx):
     kmax = ctx.n(3, 4)
     nshape = 0
     for k in range(1, kmax + 1):
-        for shape in all_shapes(k, STACKED if k <= ctx.n(2, 3) else ('', 'not', 'paren')):
+        # k <= 2: every stacking of wrappers; k = 3: single wrappers (thorough: stacked, every 4th); k = 4 (thorough): single, every 11th
+        wr = STACKED if (k <= 2 or (k == 3 and not ctx.quick)) else ('', 'not', 'paren')
+        stride = 1 if (k <= 2 or ctx.quick) else (4 if k == 3 else 11)
+        for si, shape in enumerate(all_shapes(k, wr)):
+            if si % stride:
+                continue
             nshape += 1
             lv = [('pr', [names[i]]) for i in range(k)]
             q = instantiate(shape, lv)
@@ -614,8 +619,8 @@ def check_C01(ctx):
             so = res.impl.get(sc.id)
             if so and so.get('tree') != tree_sx(q):
                 ctx.violation('the shipped parser groups the rule differently: %s, expected %s' % (so.get('tree'), tree_sx(q)), [sc])
-    ctx.extra['exhaustive_part'] = 'bool-exh: all %d shapes with <= %d leaves x all leaf assignments' % (nshape, kmax)
-    ctx.exhaustive = True
+    ctx.extra['exhaustive_part'] = 'bool-exh: %d shapes with <= %d leaves x all leaf assignments (all shapes with <= 2 leaves under every stacking of not/parentheses; quick: all 3-leaf shapes with single wrappers)' % (nshape, kmax)
+    ctx.exhaustive = ctx.quick
     spread_samples(ctx, cs, res)
 
 # ----------------------------------------------------------------------------
